@@ -775,6 +775,19 @@ static void ptr_tests(std::mt19937_64& rng, bool thorough)
     ptr_event("reinterpret_cast", rw, got, r);
     r = guarded([&] { got = sandbox_reinterpret_cast<char*>(*pp).UNSAFE_unverified(); });
     ptr_event("reinterpret_cast(volatile)", rw, got, r);
+    if (rw < (W)SIZE) {
+      // the representation is what the sandbox's allocator answers (0 = allocation failed)
+      sb->get_sandbox_impl()->malloc_override = true;
+      sb->get_sandbox_impl()->malloc_override_val = rep;
+      r = guarded([&] { got = sb->malloc_in_sandbox<char>(1).UNSAFE_unverified(); });
+      sb->get_sandbox_impl()->malloc_override = false;
+      ptr_event("allocation-result", rw, got, r);
+      sb->get_sandbox_impl()->malloc_override = true;
+      sb->get_sandbox_impl()->malloc_override_val = rep;
+      r = guarded([&] { got = sb->malloc_in_sandbox<int*>(1).UNSAFE_unverified(); });
+      sb->get_sandbox_impl()->malloc_override = false;
+      ptr_event("allocation-result(int*)", rw, got, r);
+    }
   }
   ptr_flush();
   cb.unregister();
@@ -1095,12 +1108,14 @@ static void chain_tests(bool thorough)
   for (auto& rw : raws) {
     r = guarded([&] { got = sb->UNSAFE_accept_pointer((const char*)rw.p).UNSAFE_unverified(); });
     chain_event(std::string("UNSAFE_accept_pointer(") + rw.name + ")", got, r);
+    tainted<const char*, Sbx> held = sb->UNSAFE_accept_pointer((const char*)(BASE + 48));
     r = guarded([&] {
-      tainted<const char*, Sbx> t;
-      t.assign_raw_pointer(*sb, (const char*)rw.p);
-      got = t.UNSAFE_unverified();
+      held.assign_raw_pointer(*sb, (const char*)rw.p);
+      got = held.UNSAFE_unverified();
     });
     chain_event(std::string("tainted.assign_raw_pointer(") + rw.name + ")", got, r);
+    // whatever the outcome, the tainted pointer assigned to is still a tainted pointer
+    chain_event(std::string("tainted.assign_raw_pointer(") + rw.name + ").held-afterwards", held.UNSAFE_unverified(), "ok");
     r = guarded([&] {
       auto cp = sb->malloc_in_sandbox<const char*>();
       *cp = nullptr;
@@ -1122,19 +1137,24 @@ static void entry_tests()
       static const char* AN[] = { "UNSAFE_accept_pointer", "tainted.assign_raw_pointer", "tainted_volatile.assign_raw_pointer" };
       const void* got = nullptr;
       *rawcell = (GP)0xBEEF;
+      // the tainted pointer assigned to already designates sandbox memory (offset 48): after a
+      // refused assignment it is read again
+      tainted<const char*, Sbx> held = sb->UNSAFE_accept_pointer((const char*)(BASE + 48));
       const char* r = guarded([&] {
         if (api == 0) {
           got = sb->UNSAFE_accept_pointer((const char*)addr).UNSAFE_unverified();
         } else if (api == 1) {
-          tainted<const char*, Sbx> t;
-          t.assign_raw_pointer(*sb, (const char*)addr);
-          got = t.UNSAFE_unverified();
+          held.assign_raw_pointer(*sb, (const char*)addr);
         } else {
           (*cell).assign_raw_pointer(*sb, (const char*)addr);
         }
       });
+      if (api == 1) {
+        got = held.UNSAFE_unverified();
+      }
       tr::Ev e("entry");
       e.str("api", AN[api]).str("cls", cls).str("sb", sbname).num("off", off).str("out", r).num("size", SIZE);
+      e.boolean("heldapi", api == 1);
       if (api < 2) {
         e.wide("stored", got == nullptr ? -1 : (W)reinterpret_cast<uintptr_t>(got) - (W)BASE);
       } else {
@@ -1191,6 +1211,7 @@ static void entry_tests()
         }
       });
       tr::Ev e("entry");
+      e.boolean("heldapi", false);
       e.str("api", AN[api]).str("cls", "out").str("sb", "").num("off", f == app_fn ? 0 : 1).str("out", r).num("size", SIZE);
       e.wide("stored", api < 2 ? (got == nullptr ? -1 : (W)reinterpret_cast<uintptr_t>(got) - (W)BASE) : (W)*rawfcell);
       e.boolean("cellapi", api == 2);
@@ -1198,6 +1219,54 @@ static void entry_tests()
     }
   }
 }
+
+#ifdef VM_GRANT_DENY
+// ---------------------------------------------------------------- handing application buffers over (C02)
+// copy_memory_or_grant_access is the one route by which a RAW application pointer is given to the
+// backend: the range must have been accepted (non-null, no wrap, entirely application memory or
+// entirely this sandbox's) before the backend sees it.
+template<typename T>
+static void grant_one(const char* what, bool rangeok, T* src, size_t num, int mode)
+{
+  Sbx::grant_mode = mode;
+  Sbx::grant_log.clear();
+  bool copied = false;
+  const void* got = nullptr;
+  const char* r = guarded([&] {
+    auto t = copy_memory_or_grant_access(*sb, src, num, false, copied);
+    got = t.UNSAFE_unverified();
+  });
+  tr::Ev e("grant");
+  e.str("what", what).boolean("rangeok", rangeok).num("mode", mode).str("out", r).boolean("copied", copied);
+  e.num("asked", (long)Sbx::grant_log.size());
+  bool same = !Sbx::grant_log.empty() && Sbx::grant_log[0].first == reinterpret_cast<uintptr_t>(src) &&
+              Sbx::grant_log[0].second == num * sizeof(T);
+  e.boolean("asked_same", same);
+  uintptr_t a = reinterpret_cast<uintptr_t>(got);
+  e.str("cls", std::strcmp(r, "ok") != 0 ? "abort" : got == nullptr ? "null" : (a >= BASE && a < BASE + SIZE) ? "in" : "out");
+  out.put(e);
+  Sbx::grant_mode = 0;
+  Sbx::grant_log.clear();
+}
+static void grant_tests()
+{
+  static char app_buf[64] = "application buffer";
+  static double app_dbl[4] = { 1, 2, 3, 4 };
+  for (int mode : { 0, 2 }) {
+    grant_one("app char[64]", true, app_buf, sizeof app_buf, mode);
+    grant_one("app double[4]", true, app_dbl, (size_t)4, mode);
+    grant_one("app char[1]", true, app_buf + 63, (size_t)1, mode);
+    grant_one("sandbox char[16]", true, (char*)(BASE + 64), (size_t)16, mode);
+    grant_one("null", false, (char*)nullptr, (size_t)8, mode);
+    grant_one("enters the region", false, (char*)(BASE - 4), (size_t)8, mode);
+    grant_one("leaves the region", false, (char*)(BASE + SIZE - 4), (size_t)8, mode);
+    grant_one("wraps", false, (char*)(~(uintptr_t)0 - 3), (size_t)8, mode);
+    grant_one("wraps from the region", false, (char*)(BASE + 8), ~(size_t)0 - 3, mode);
+    grant_one("double enters the region", false, (double*)(BASE - 8), (size_t)2, mode);
+    grant_one("enters another sandbox", false, (char*)(others[0]->get_sandbox_impl()->base - 2), (size_t)4, mode);
+  }
+}
+#endif
 
 static vm_library lib = { 1, { { "ret_ptr", (void*)&g_ret_ptr }, { "call_cb_with_ptr", (void*)&g_call_cb_with_ptr },
                                 { "call_cb_ret_ptr", (void*)&g_call_cb_ret_ptr } } };
@@ -1256,6 +1325,9 @@ int main(int argc, char** argv)
     chain_tests(thorough);
   } else if (mode == "entry") {
     entry_tests();
+#ifdef VM_GRANT_DENY
+    grant_tests();
+#endif
   } else {
     return 2;
   }
